@@ -183,6 +183,9 @@ func (c *Ctx) runInverseOrder(rule string, pkgs []*packages.Package) {
 				recv = inverseCollection(fn)
 			}
 			if recv == nil {
+				recv = inverseApplication(fn)
+			}
+			if recv == nil {
 				continue
 			}
 			c.analysed(qname(fn))
@@ -222,6 +225,15 @@ func (c *Ctx) runInverseOrder(rule string, pkgs []*packages.Package) {
 					}
 					okSite := false
 					for _, ref := range *call.Referrers() {
+						if app, isCall := ref.(*ssa.Call); isCall && accumulates(app) {
+							// applied one after the other to a running value: the
+							// order of application is the order of the members
+							if indexRunsDown(idx) {
+								okSite = true
+							} else {
+								why = "the member inverses are applied one after the other while the index runs upwards"
+							}
+						}
 						switch u := ref.(type) {
 						case *ssa.Store:
 							// res[k] = inverse, or the one-element array of an append
@@ -394,6 +406,58 @@ func inverseCollection(fn *ssa.Function) ssa.Value {
 							}
 						}
 					}
+				}
+			}
+		}
+	}
+	return nil
+}
+
+// accumulates: the call takes a loop-carried value (a header phi) among its
+// operands and its result flows back into that phi.
+func accumulates(app *ssa.Call) bool {
+	var phis []*ssa.Phi
+	ops := append([]ssa.Value{}, app.Call.Args...)
+	if app.Call.IsInvoke() {
+		ops = append(ops, app.Call.Value)
+	}
+	for _, o := range ops {
+		if phi, ok := o.(*ssa.Phi); ok {
+			phis = append(phis, phi)
+		}
+	}
+	for _, phi := range phis {
+		for _, e := range phi.Edges {
+			if e == ssa.Value(app) {
+				return true
+			}
+			if ex, ok := e.(*ssa.Extract); ok && ex.Tuple == ssa.Value(app) {
+				return true
+			}
+		}
+	}
+	return false
+}
+
+// inverseApplication: fn applies m.Inverse(), m an element of a slice S, to a
+// loop-carried value (x = x.Transform(m.Inverse())); returns S.
+func inverseApplication(fn *ssa.Function) ssa.Value {
+	for _, b := range fn.Blocks {
+		for _, ins := range b.Instrs {
+			call, ok := ins.(*ssa.Call)
+			if !ok || !call.Call.IsInvoke() || call.Call.Method.Name() != "Inverse" {
+				continue
+			}
+			ia := loadOfIndex(call.Call.Value)
+			if ia == nil {
+				continue
+			}
+			if _, isSl := ia.X.Type().Underlying().(*types.Slice); !isSl {
+				continue
+			}
+			for _, ref := range *call.Referrers() {
+				if app, ok := ref.(*ssa.Call); ok && accumulates(app) {
+					return ia.X
 				}
 			}
 		}
